@@ -14,6 +14,11 @@
                        NOT sent when the loop left through `_exit`).
   Rule evaluation emits no message and a failing import ends the scan before any rule is
   reported, so imports and rules are two separate input lists (both in source order).
+
+  Second part (end of file): the string-matching phase that runs BEFORE all of the above
+  (scan.c `yr_scan_verify_match` / `_yr_scan_add_match_to_list`): per-string match lists capped at
+  `YR_MAX_STRING_MATCHES`, `CALLBACK_MSG_TOO_MANY_MATCHES`, `strings_temp_disabled`; `fullScan`
+  runs it and then `scan` on the conditions resolved with the recorded match counts.
 -/
 namespace YaraModel.Cb
 
@@ -22,11 +27,13 @@ inductive Ret | cont | abort | error
 deriving DecidableEq, Repr
 
 /-- return value of the scan call (`ERROR_SUCCESS` / `ERROR_CALLBACK_ERROR`) -/
-inductive Rc | success | callbackError
+inductive Rc | success | callbackError | tooManyMatches
 deriving DecidableEq, Repr
 
-/-- The five protocol messages; a rule is identified by its index in definition order. -/
+/-- The protocol messages; a rule is identified by its index in definition order, a string by its
+    index (`YR_STRING.idx`) in definition order over the whole rule set. -/
 inductive Msg
+  | tooManyMatches (s : Nat)
   | importModule (m : String)
   | moduleImported (m : String)
   | ruleMatching (i : Nat)
@@ -36,10 +43,12 @@ deriving DecidableEq, Repr
 
 /-- Conditions of the generated rule sets. `lit` is anything decided by the buffer alone
     (`true`, `false`, `filesize > N`), `str found` is `$s` for a string of the rule that is / is not
-    in the buffer, `rule j` is the identifier of rule number `j`. -/
+    in the buffer, `cnt found gt` is `#s > N` for a string of the rule (`found`: has a match,
+    `gt`: the comparison's value), `rule j` is the identifier of rule number `j`. -/
 inductive Cond
   | lit (b : Bool)
   | str (found : Bool)
+  | cnt (found gt : Bool)
   | rule (j : Nat)
   | not (c : Cond)
   | and (a b : Cond)
@@ -101,6 +110,7 @@ def loadModules : List String → List String → List Ret → Loaded
 def Cond.required : Cond → Nat
   | .lit _ => 0
   | .str _ => 1
+  | .cnt _ _ => 0
   | .rule _ => 0
   | .not _ => 0
   | .and a b => a.required + b.required
@@ -110,6 +120,7 @@ def Cond.required : Cond → Nat
 def Cond.anyFound : Cond → Bool
   | .lit _ => false
   | .str f => f
+  | .cnt f _ => f
   | .rule _ => false
   | .not c => c.anyFound
   | .and a b => a.anyFound || b.anyFound
@@ -124,6 +135,7 @@ def Rule.requiredEval (r : Rule) : Bool := r.cond.required == 0 || r.cond.anyFou
 def evalCond (matched : List Bool) : Cond → Bool
   | .lit b => b
   | .str f => f
+  | .cnt _ gt => gt
   | .rule j => matched.getD j false
   | .not c => !evalCond matched c
   | .and a b => evalCond matched a && evalCond matched b
@@ -185,5 +197,75 @@ def scan (rs : List Rule) (imports : List String) (fl : Flags) (script : List Re
     match report fl (exec rs) 0 rs l.rest with
     | (t, .exit rc) => (l.trace ++ t, rc)
     | (t, .done _) => (l.trace ++ t ++ [.scanFinished], .success)   -- answer to SCAN_FINISHED ignored
+
+/-! ### the matching phase and `CALLBACK_MSG_TOO_MANY_MATCHES` (scan.c) -/
+
+/-- conditions as written: a string is referred to by its index `YR_STRING.idx` -/
+inductive SCond
+  | lit (b : Bool)
+  | str (s : Nat)              -- `$s`
+  | cnt (s : Nat) (n : Nat)    -- `#s > n`
+  | rule (j : Nat)
+  | not (c : SCond)
+  | and (a b : SCond)
+  | or (a b : SCond)
+deriving DecidableEq, Repr
+
+structure SRule where
+  ns : Nat
+  isGlobal : Bool
+  isPrivate : Bool
+  cond : SCond
+deriving DecidableEq, Repr
+
+/-- what the VM sees of a condition once `count s` matches are recorded for string `s` -/
+def SCond.resolve (count : Nat → Nat) : SCond → Cond
+  | .lit b => .lit b
+  | .str s => .str (decide (0 < count s))
+  | .cnt s n => .cnt (decide (0 < count s)) (decide (n < count s))
+  | .rule j => .rule j
+  | .not c => .not (c.resolve count)
+  | .and a b => .and (a.resolve count) (b.resolve count)
+  | .or a b => .or (a.resolve count) (b.resolve count)
+
+def SRule.resolve (count : Nat → Nat) (r : SRule) : Rule :=
+  ⟨r.ns, r.isGlobal, r.isPrivate, r.cond.resolve count⟩
+
+/-- `matches[s].count` for every string, and the set bits of `strings_temp_disabled` -/
+structure MatchSt where
+  count : Nat → Nat
+  disabled : List Nat
+
+def MatchSt.init : MatchSt := ⟨fun _ => 0, []⟩
+
+structure Matched where
+  trace : List Msg
+  st : MatchSt
+  rest : List Ret
+  ok : Bool               -- false: a verification returned ERROR_TOO_MANY_MATCHES (scan halted)
+
+/-- `events`: the strings of the successfully verified candidates, in the order the automaton hands
+    them to `yr_scan_verify_match`; `limit` is `YR_MAX_STRING_MATCHES`. -/
+def matchPhase (limit : Nat) : List Nat → MatchSt → List Ret → Matched
+  | [], st, sc => ⟨[], st, sc, true⟩
+  | s :: es, st, sc =>
+    if st.disabled.contains s then matchPhase limit es st sc            -- strings_temp_disabled: return at once
+    else if st.count s = limit then                                      -- _yr_scan_add_match_to_list: list is full
+      match call sc with                                                 -- CALLBACK_MSG_TOO_MANY_MATCHES
+      | (.cont, sc') =>
+        let m := matchPhase limit es ⟨st.count, s :: st.disabled⟩ sc'
+        ⟨.tooManyMatches s :: m.trace, m.st, m.rest, m.ok⟩
+      | (_, sc') => ⟨[.tooManyMatches s], st, sc', false⟩             -- any other answer: ERROR_TOO_MANY_MATCHES
+    else
+      matchPhase limit es ⟨fun x => if x = s then st.count s + 1 else st.count x, st.disabled⟩ sc
+
+/-- a whole scan: blocks are matched first, then the code runs and the rules are reported -/
+def fullScan (limit : Nat) (events : List Nat) (rs : List SRule) (imports : List String) (fl : Flags)
+    (script : List Ret) : List Msg × Rc :=
+  let m := matchPhase limit events .init script
+  if !m.ok then (m.trace, .tooManyMatches)                               -- result != ERROR_SUCCESS: goto _exit
+  else
+    let r := scan (rs.map (SRule.resolve m.st.count)) imports fl m.rest
+    (m.trace ++ r.1, r.2)
 
 end YaraModel.Cb
